@@ -32,8 +32,8 @@ def run_family(pid, tier, family, invariants, props, cats, bounds, sample_n, j=1
         mh, mcm = prog.get('bounds', (max_hist, max_cmds))
         if tier == 'thorough' and 'bounds' in prog:
             mh, mcm = mh + 1, mcm + 1
-        invs = list(invariants)
-        prs = list(props)
+        invs = [x for x in invariants if x not in prog.get('skip_invariants', ())]
+        prs = [x for x in props if x not in prog.get('skip_invariants', ())]
         pre = []          # specification-level violations that are listed known findings
         while True:
             res, hs = histories.gen_histories(prog, d, j=j, max_hist=mh, max_cmds=mcm,
